@@ -15,30 +15,36 @@ namespace UrcuVerif.CallRcu
 
 structure InvB (c : Cfg) (s : State) : Prop where
   clk_enq : ∀ id, (s.loc id).queued = true → s.enqT id < s.clock
-  clk_hgp : ∀ h a, s.hgp h = some a → a < s.clock
-  clk_cs : ∀ t b, s.cs t = some b → b < s.clock
-  clk_ugp : ∀ t a, s.ugp t = some a → a < s.clock
+  clk_hgp : ∀ h, s.hgp h < s.clock
+  clk_cs : ∀ t, s.cs t < s.clock
+  clk_ugp : ∀ t, s.ugp t < s.clock
   clk_gpd : s.gpDone < s.clock
-  batch_enq : ∀ h id a, s.loc id = .batch h ∨ s.loc id = .run h → s.hgp h = some a → s.enqT id < a
-  gp_set : ∀ h, s.hpc h = .gp ∨ s.hpc h = .inv ∨ s.hpc h = .run → (s.hgp h).isSome = true
-  gp_done : ∀ h a, s.hpc h = .inv ∨ s.hpc h = .run → s.hgp h = some a → ∀ t b, s.cs t = some b → a ≤ b
-  gpd_open : ∀ t b, s.cs t = some b → s.gpDone ≤ b
-  cs_nest : ∀ t, s.cs t = none ↔ s.nest t = 0
-  inert : ∀ t, nthr c s ≤ t → s.cs t = none
+  batch_enq : ∀ h id, s.loc id = .batch h ∨ s.loc id = .run h → s.enqT id < s.hgp h
+  gp_done : ∀ h t, s.hpc h = .inv ∨ s.hpc h = .run → 0 < s.nest t → s.hgp h ≤ s.cs t
+  gpd_open : ∀ t, 0 < s.nest t → s.gpDone ≤ s.cs t
+  inert : ∀ t, nthr c s ≤ t → s.nest t = 0
+
+theorem userCtx_lt {c : Cfg} {s : State} {t : Nat} (h : userCtx c s t = true) : t < c.n + s.nextH := by
+  unfold userCtx nthr at h
+  simp only [Bool.or_eq_true, Bool.and_eq_true, decide_eq_true_eq] at h
+  rcases h with h | ⟨h, _⟩
+  · omega
+  · exact h
 
 theorem invB_init (c) : InvB c init := by
   constructor <;> simp [init, Loc.queued]
 
 set_option hygiene false in
 macro "b_tac" : tactic => `(tactic| (
-  obtain ⟨a1, a2, a3, a4, a5, a6, a7, a8, a9, a10, a11, a12, a13, a14, a15⟩ := hA
-  obtain ⟨h1, h2, h3, h4, h5, h6, h7, h8, h9, h10, h11⟩ := h
+  have a2 := hA.b_loc
+  clear hA
+  obtain ⟨h1, h2, h3, h4, h5, h6, h7, h8, h9⟩ := h
   simp only [step] at st
   (repeat' split at st)
   all_goals (first | (simp at st; done) | skip)
   all_goals (simp only [Option.some.injEq] at st; subst st)
-  all_goals (constructor <;> first | assumption | (simp only [upd, lockS, unlockS, newHelper, relocate, K.cont, gpMayEnd, userCtx, nthr] at * <;>
-    grind [upd, relocate, LocOk, TOk, Loc.queued, Nat.max_def, → mem_of_head?]))))
+  all_goals (constructor <;> first | assumption | (simp only [upd, lockS, unlockS, newHelper, relocate, K.cont, gpMayEnd, nthr] at * <;>
+    grind [upd, relocate, Loc.queued, → mem_of_head?, → userCtx_lt]))))
 
 theorem invb_rlock (c : Cfg) {s s' : State} (hA : InvA c s) (h : InvB c s) (t : _)
     (st : step c s (.rlock t) = some s') : InvB c s' := by
